@@ -420,6 +420,83 @@ def spow(b, x):
     raise Unsupported("power %r ** %r" % (b, x))
 
 
+def scaled_int(term):
+    """(k, s): z3 Int term k and Fraction s with term == ToReal(k)*s, for
+    terms that are rational-linear combinations of integers; else None.
+    Keeps rounding / truncation of decimal quantities inside linear integer
+    arithmetic."""
+    t = z3.simplify(term)
+    return _scaled(t)
+
+
+def _lcm(a, b):
+    return a * b // _math.gcd(a, b)
+
+
+def _scaled(t):
+    if z3.is_rational_value(t):
+        return z3.IntVal(t.numerator_as_long()), Fraction(1, t.denominator_as_long())
+    if z3.is_int_value(t):
+        return t, Fraction(1)
+    if not z3.is_app(t):
+        return None
+    k = t.decl().kind()
+    if k == z3.Z3_OP_TO_REAL:
+        return t.arg(0), Fraction(1)
+    if k == z3.Z3_OP_UMINUS:
+        r = _scaled(t.arg(0))
+        return None if r is None else (-r[0], r[1])
+    if k in (z3.Z3_OP_ADD, z3.Z3_OP_SUB):
+        parts = [_scaled(a) for a in t.children()]
+        if any(p is None for p in parts):
+            return None
+        L = 1
+        for _, s in parts:
+            L = _lcm(L, s.denominator)
+        tot = None
+        for i, (ke, s) in enumerate(parts):
+            m = s.numerator * (L // s.denominator)
+            term = ke * m if m != 1 else ke
+            if tot is None:
+                tot = term
+            elif k == z3.Z3_OP_SUB:
+                tot = tot - term
+            else:
+                tot = tot + term
+        return tot, Fraction(1, L)
+    if k == z3.Z3_OP_MUL:
+        ch = t.children()
+        const = Fraction(1)
+        rest = []
+        for a in ch:
+            if z3.is_rational_value(a):
+                const *= Fraction(a.numerator_as_long(), a.denominator_as_long())
+            else:
+                rest.append(a)
+        if len(rest) != 1:
+            return None
+        r = _scaled(rest[0])
+        if r is None:
+            return None
+        if const < 0:
+            return -r[0], r[1] * (-const)
+        return r[0], r[1] * const
+    if k == z3.Z3_OP_DIV:
+        a, b = t.children()
+        if not z3.is_rational_value(b):
+            return None
+        r = _scaled(a)
+        if r is None:
+            return None
+        d = Fraction(b.numerator_as_long(), b.denominator_as_long())
+        if d == 0:
+            return None
+        if d < 0:
+            return -r[0], r[1] / (-d)
+        return r[0], r[1] / d
+    return None
+
+
 def sround(x, n=None):
     """round(): nearest multiple of 10**-n.  Model: floor(x*10^n + 1/2)/10^n
     (differs from Python's result only at exact ties and by the usual
@@ -433,12 +510,29 @@ def sround(x, n=None):
     if is_sym(n):
         raise Unsupported("round with symbolic ndigits")
     sc = 10 ** n
+    si = scaled_int(lift_real(x))
+    if si is not None:
+        ke, s = si
+        m = s * sc                      # x * 10^n == ke * m
+        if m.denominator == 1:
+            return x                    # already a multiple of 10^-n
+        p, q = m.numerator, m.denominator
+        r = (2 * p * ke + q) / (2 * q)  # floor(ke*p/q + 1/2), integer arithmetic
+        return SReal(z3.ToReal(r) / rv(sc))
     k = z3.ToInt(lift_real(x) * rv(sc) + rv(Fraction(1, 2)))
     return SReal(z3.ToReal(k) / rv(sc))
 
 
 def strunc(x):
     e = lift_real(x)
+    si = scaled_int(e)
+    if si is not None:
+        ke, s = si
+        p, q = s.numerator, s.denominator
+        num = ke * p if p != 1 else ke
+        if q == 1:
+            return SInt(num)
+        return SInt(z3.If(num >= 0, num / q, -((-num) / q)))
     return SInt(z3.If(e >= 0, z3.ToInt(e), -z3.ToInt(-e)))
 
 
@@ -859,6 +953,8 @@ class Ctx:
 def z3_to_py(val):
     if z3.is_int_value(val):
         return val.as_long()
+    if z3.is_bv_value(val):
+        return val.as_signed_long()
     if z3.is_rational_value(val):
         return Fraction(val.numerator_as_long(), val.denominator_as_long())
     if z3.is_algebraic_value(val):
